@@ -7,7 +7,7 @@ use serde_json::{json, Value};
 pub const DEF: PropDef = PropDef {
     id: "C09",
     level: "exploration",
-    rule: "complete enumeration of (1) the ill-typed alphabet: every statement template (all statement forms, 1..3 slots) x every filler (a name bound to each value kind incl. NaN, 1e30, empty/non-empty/dictionary arrays, a function name, a never-assigned name, a pronoun with/without referent, literals) in every slot; (2) all sequences <=3 (thorough <=4) of stray-control items (break, continue, return at top level, blank lines, loops, calls of functions whose body is break/continue/return/empty); (3) all sequences <=3 (thorough <=4) of degenerate poetic-literal atoms after seven assignment/rock heads, and poetic literals of 8..330 words; programs the parser rejects are counted and dropped; programs whose reference run exceeds the step/size budget are not executed; all others are executed in both builds: no panic, abort, signal or hang, a renderable error, identical observable result, and the reference outcome where the reference defines one; non-trivial = accepted by the parser and executed; distinct = distinct program text",
+    rule: "complete enumeration of (1) the ill-typed alphabet: every statement template (all statement forms, 1..3 slots) x every filler (a name bound to each value kind incl. NaN, 1e30, empty/non-empty/dictionary arrays, a function name, a never-assigned name, a pronoun with/without referent, literals) in every slot; (2) all sequences <=3 (thorough <=5) of stray-control items (break, continue, return at top level, blank lines, loops, calls of functions whose body is break/continue/return/empty); (3) all sequences <=3 (thorough <=5) of degenerate poetic-literal atoms after seven assignment/rock heads, and poetic literals of 8..330 words; programs the parser rejects are counted and dropped; programs whose reference run exceeds the step/size budget are not executed; all others are executed in both builds: no panic, abort, signal or hang, a renderable error, identical observable result, and the reference outcome where the reference defines one; non-trivial = accepted by the parser and executed; distinct = distinct program text",
     assumptions: &[
         "the checked build asserts every unchecked-unsafe precondition (debug_assert, unchecked_unwrap, overflow checks); aborts/segfaults of a worker are attributed to the case in flight by re-running its chunk in announce mode",
         "resource bound: reference step budget 20k, array/string sizes 1e5; programs beyond it are outside 'modest resources'",
@@ -165,10 +165,10 @@ fn build(tier: Tier) -> Box<dyn Check> {
     // pronoun without referent: only the cases that use the pronoun
     let no_ref = templated.map(|s| format!("{}{}{}say vz\n", PRELUDE, NO_REFERENT, s));
     let s: Space<&'static str> = Space::of(STRAY.to_vec());
-    let stray = s.seq_range(1, tier.pick(3, 4)).map(|v| format!("put true into vb\n{}say 9\n", v.concat()));
+    let stray = s.seq_range(1, tier.pick(3, 5)).map(|v| format!("put true into vb\n{}say 9\n", v.concat()));
     let heads: Space<&'static str> = Space::of(POETIC_HEADS.to_vec());
     let atoms: Space<&'static str> = Space::of(POETIC_ATOMS.to_vec());
-    let poetic = heads.product(&atoms.seq_range(0, tier.pick(3, 4)), |h, v| format!("{}{}\nsay x\nsay x at 0\n", h, v.join(" ")));
+    let poetic = heads.product(&atoms.seq_range(0, tier.pick(3, 5)), |h, v| format!("{}{}\nsay x\nsay x at 0\n", h, v.join(" ")));
     Box::new(C09 {
         fams: vec![
             ("ill-typed".into(), with_ref),
